@@ -369,8 +369,8 @@ def run(ctx):
         if quick:
             runs.append(dict(sub="fresh", n=400, nb=8, ne=8, engines="mem"))
         else:
-            runs.append(dict(sub="fresh", n=5000, nb=150, ne=60, engines="mem,pebble,rocksdb"))
-            runs.append(dict(sub="fresh-pebble-live", n=0, nb=40, ne=20, engines="pebble"))
+            runs.append(dict(sub="fresh", n=4500, nb=120, ne=60, engines="mem,pebble,rocksdb"))
+            runs.append(dict(sub="fresh-pebble-live", n=0, nb=30, ne=15, engines="pebble"))
 
     all_mism, all_fail, total, evals, hist_all, samples, distinct = [], [], 0, 0, {}, [], set()
     m0_fail = []
